@@ -402,6 +402,7 @@ def run(c):
         c.obligation("translator: error table of validate_query regenerated", False, "translator", repr(e)[-900:])
     c.trusted.append("translator/pyinterp.py + gen_validate.py (fail-closed definitional interpreter; the error-text classifier is trusted; validated against CPython each run)")
     lib.regen_small(c, "_parse_dimension_refs")
+    lib.regen_cte(c)
     c.build_props()
     na = 420 if c.tier == "quick" else 6000
     nb = 90 if c.tier == "quick" else 1500
